@@ -52,9 +52,12 @@ EXPLANATION = (
     "Theorems over all reachable states of the interleaving machine (any number of client and background threads, "
     "line granularity, peer answering in any order, time passing anywhere): seq_unique + seq_fresh_on_call; "
     "dispatch_once + one_receiver + receive_exclusive (mutex of the receive region, FIFO channel); own_reply + "
-    "caller_gets_own_reply + frames_are_answers; no_lost_wakeup; no_deadlock_with_data; publication_order + "
-    "reader_sees_value. All six planned theorems are proved (C13.6 publication_order included). Liveness beyond "
-    "'some thread is enabled while data is pending' (fair termination) is not claimed.")
+    "caller_gets_own_reply + frames_are_answers; no_lost_wakeup; no_deadlock_with_data; no_parking_after_eof + "
+    "waiter_woken_after_close (the end of the stream: the peer may close at any point; the receiver that meets the EOF "
+    "closes, raises, and still releases and notifies, so nobody stays parked); publication_order + reader_sees_value. "
+    "All six planned theorems are proved (C13.6 publication_order included), plus the end-of-stream pair. The EOF "
+    "schedules are trace-accepted by the model like all others (not oracle-only). Liveness beyond 'some thread is "
+    "enabled' (fair termination) is not claimed.")
 
 CONFIGS = {
     # name: case.  Thread ids: clients 1..n, background thread n+1.  Timeouts in virtual time units.
